@@ -18,6 +18,10 @@ func genC18(r *Rng, tier string, idx int) *Plan {
 	nf := r.Range(2, 3)
 	p.Spec = genSpec(r, genOpts{Filters: nf, NoFetch: r.Bool(), Timeouts: true, Logout: 0})
 	topo := []string{"shared-memory", "shared-redis", "distinct-redis", "mixed", "same-server-different-db", "tenants-of-one-provider"}[idx%6]
+	if idx%12 == 9 {
+		// mixed stores, and the Redis server of one filter refuses connections while the service starts
+		topo = "redis-unreachable-at-start-up"
+	}
 	if topo == "tenants-of-one-provider" {
 		// the filters use different tenants (policies) of ONE provider host: same discovery path, selected by query
 		for i := range p.Spec.IdPs {
@@ -43,6 +47,9 @@ func genC18(r *Rng, tier string, idx int) *Plan {
 		case "same-server-different-db":
 			// one Redis server, separate logical databases: separate keyspaces, separate stores
 			f.Store = []string{"redis", "redisdb1", "redis2"}[i]
+		case "redis-unreachable-at-start-up":
+			f.Store = []string{"memory", "redis2", "memory"}[i]
+			p.Spec.RedisDownAtBoot = "redis2"
 		default:
 			f.Store = []string{"memory", "redis", "memory"}[i]
 		}
@@ -115,6 +122,12 @@ func runC18(p *Plan) *Result {
 		w.StartNet(nil)
 		defer w.Close()
 		w.Boot()
+		if w.Rep.BootErr != nil && p.Spec.RedisDownAtBoot != "" {
+			// a filter whose session store cannot be reached must not be served from anything else: refusing to
+			// start is the behaviour on the unchanged tree
+			w.probe("start-up-refused-while-a-redis-server-is-unreachable")
+			return
+		}
 		if w.Rep.BootErr != nil {
 			infra = "generated configuration was rejected: " + w.Rep.BootErr.Error()
 			return
